@@ -291,10 +291,15 @@ type sentinel struct{}
 
 type event map[string]interface{}
 
+// fakeT behaves like *testing.T as far as mocks can see it: Errorf and FailNow mark the test as
+// failed, Failed() reports it, Cleanup functions are kept and run last-registered-first.
 type fakeT struct {
 	events   *[]event
 	cleanups []func()
+	failed   bool
 }
+
+func (f *fakeT) Failed() bool { return f.failed }
 
 func (f *fakeT) Logf(format string, args ...interface{}) {
 	*f.events = append(*f.events, event{"e": "logf"})
@@ -311,9 +316,11 @@ func (f *fakeT) Errorf(format string, args ...interface{}) {
 	case strings.Contains(format, "expectation(s) were met"):
 		kind = "assert"
 	}
+	f.failed = true
 	*f.events = append(*f.events, event{"e": "errorf", "kind": kind})
 }
 func (f *fakeT) FailNow() {
+	f.failed = true
 	*f.events = append(*f.events, event{"e": "failnow"})
 	panic(sentinel{})
 }
@@ -347,15 +354,17 @@ type Step struct {
 	// caller-owned []interface{} buffers: setbuf (re)writes buffer B with Args (in place when the
 	// length is unchanged), mutate sets element I to V, expect with Buf spreads the buffer itself
 	// as the variadic expectation arguments (Args then holds the fixed arguments only)
+	K   int  `json:"k,omitempty"` // which mock of the history (several mocks may share one t)
 	B   int  `json:"b,omitempty"`
 	I   int  `json:"i,omitempty"`
 	V   *Val `json:"v,omitempty"`
 	Buf *int `json:"buf,omitempty"`
 }
 type History struct {
-	Mock  string `json:"mock"`
-	Ctor  bool   `json:"ctor"`
-	Steps []Step `json:"steps"`
+	Mock  string   `json:"mock"`
+	Extra []string `json:"extra,omitempty"` // further mocks constructed on the same t (k = 1, 2, ...)
+	Ctor  bool     `json:"ctor"`
+	Steps []Step   `json:"steps"`
 }
 type Obs struct {
 	Out    string        `json:"out"` // ret | fail | panic | done
@@ -435,7 +444,8 @@ func classify(r interface{}, method string) (string, bool, string) {
 }
 
 type runner struct {
-	mockV  reflect.Value
+	mockV  reflect.Value // the mock the current step addresses
+	mocks  []reflect.Value
 	events []event
 	t      *fakeT
 	bufs   map[int][]interface{}
@@ -493,10 +503,25 @@ func (r *runner) step(s Step) (o Obs) {
 			o.Events = []event{}
 		}
 	}()
+	if s.K < 0 || s.K >= len(r.mocks) {
+		panic("driver: no such mock")
+	}
+	r.mockV = r.mocks[s.K]
+	s.B += 1000 * s.K // buffers belong to the code driving one mock
+	if s.Buf != nil {
+		b := *s.Buf + 1000*s.K
+		s.Buf = &b
+	}
 	switch s.Op {
+	case "terrorf":
+		// the test itself reported an unrelated, non-fatal failure
+		r.t.failed = true
+		return Obs{Out: "done"}
 	case "cleanup":
-		for _, f := range r.t.cleanups {
-			f()
+		// as testing.T does: last registered first; a marker separates the cleanups
+		for i := len(r.t.cleanups) - 1; i >= 0; i-- {
+			r.events = append(r.events, event{"e": "cleanup", "k": i})
+			r.t.cleanups[i]()
 		}
 		return Obs{Out: "done"}
 	case "setbuf":
@@ -631,17 +656,19 @@ func runHistory(h History) (obs []Obs, err string) {
 			err = fmt.Sprint(rec)
 		}
 	}()
-	ctor, ok := registry[h.Mock]
-	if !ok {
-		return nil, "driver: unknown mock " + h.Mock
-	}
 	r := &runner{bufs: map[int][]interface{}{}}
 	r.t = &fakeT{events: &r.events}
-	cv := reflect.ValueOf(ctor)
-	if h.Ctor {
-		r.mockV = cv.Call([]reflect.Value{reflect.ValueOf(r.t)})[0]
-	} else {
-		r.mockV = reflect.New(cv.Type().Out(0).Elem())
+	for _, name := range append([]string{h.Mock}, h.Extra...) {
+		ctor, ok := registry[name]
+		if !ok {
+			return nil, "driver: unknown mock " + name
+		}
+		cv := reflect.ValueOf(ctor)
+		if h.Ctor {
+			r.mocks = append(r.mocks, cv.Call([]reflect.Value{reflect.ValueOf(r.t)})[0])
+		} else {
+			r.mocks = append(r.mocks, reflect.New(cv.Type().Out(0).Elem()))
+		}
 	}
 	for _, s := range h.Steps {
 		obs = append(obs, r.step(s))
